@@ -846,3 +846,57 @@ def r4b(cx):
             cx.violation(root, 'separator-from-derived-text', 'the `--` that protects a variable name starting with `-` is decided from a '
                          'string other than the name itself (e.g. its quoted form, which starts with a quote character): the printed '
                          "`typeset -x '-a b'=..` is then re-read as options", loc=b.loc(s))
+
+
+@RS.rule('C07.R4c', 'K-SIBLING', 'typeset -p: every character that makes the typeset parser read an operand as options is covered by the `--` separator test')
+def r4c(cx):
+    import hirq as H
+    F = cx.F
+    pfn = 'yash_builtin::typeset::syntax::try_parse_short'
+    ph = F.hir_of(pfn)
+    cx.fn(pfn)
+    # first-character dispatch of the option parser: `match chars.next() { Some('-') => .., Some('+') => .., _ => return Ok(false) }`
+    prefixes = set()
+    for m in H.matches_in(ph['body']):
+        if 'core::option::Option<char>' not in (m.get('sty') or ''):
+            continue
+        lits = set()
+        for arm in m['arms']:
+            for x in _walk_pat(arm['pat']):
+                if x.get('k') == 'pexpr' and x['e'].get('k') == 'lit' and x['e'].get('t') == 'char':
+                    lits.add(x['e']['v'])
+        if lits and not prefixes:
+            prefixes = lits          # the first such match in source order is the dispatch on the first character
+    cx.require(prefixes, 'the first-character dispatch of typeset::syntax::try_parse_short was not found')
+    root = 'yash_builtin::typeset::print_variables::print_one'
+    h = F.hir_of(root)
+    cx.fn(root)
+    covered = set()
+    for x in H.walk(h['body']):
+        if x.get('k') == 'mcall' and x.get('name') == 'starts_with' and H.peel(x['recv']).get('name') == 'name':
+            a = H.peel(x['a'][0])
+            if a.get('k') == 'lit':
+                covered.add(a['v'])
+            elif a.get('k') == 'array':
+                covered |= {H.lit_value(e) for e in a['a']}
+    cx.site('typeset parser option prefixes %s; print_one protects names starting with %s' % (sorted(prefixes), sorted(covered)))
+    missing = sorted(prefixes - covered)
+    if missing:
+        cx.violation(root, 'option-prefix-unprotected:%s' % ''.join(missing), 'typeset reads an operand starting with %s as options, but the '
+                     'variable listing does not put `--` before a name starting with it: `typeset %sr=1` printed by typeset -p cannot be '
+                     'read back' % (' or '.join(repr(m) for m in missing), missing[0]), loc='%s:%s' % (h['file'], h['line']))
+
+
+def _walk_pat(p):
+    out = [p]
+    for key in ('sub', 'alts', 'before', 'after'):
+        v = p.get(key)
+        if isinstance(v, list):
+            for q in v:
+                if isinstance(q, dict):
+                    out.extend(_walk_pat(q))
+        elif isinstance(v, dict):
+            out.extend(_walk_pat(v))
+    for f in p.get('fields') or []:
+        out.extend(_walk_pat(f[1]))
+    return out
